@@ -562,7 +562,13 @@ impl<'a> Gen<'a> {
             10 => {
                 let n = self.fresh("w");
                 *out += &format!("{}uint {} = {}u;\n", ind, n, self.rng.range(1, 5));
-                if self.rng.chance(1, 2) {
+                if self.rng.chance(1, 4) {
+                    // a loop that runs once: `break` and `continue` in it still belong to it
+                    let c = self.expr(&Ty::V(Sc::B, 1), 1);
+                    *out += &format!("{}do\n{}{{\n{}if ({})\n{}{{\n{}    {};\n{}}}\n", ind, ind, inner, c, inner, inner, self.rng.pick(&["break", "continue"]), inner);
+                    self.stmts(depth - 1, ret, true, 2, &inner, out);
+                    *out += &format!("{}}}\n{}while ({});\n", ind, ind, self.rng.pick(&["false", "false", "0 > 1"]));
+                } else if self.rng.chance(1, 2) {
                     *out += &format!("{}while ({} > 0u)\n{}{{\n{}{}--;\n", ind, n, ind, inner, n);
                     self.stmts(depth - 1, ret, true, 1, &inner, out);
                     *out += &format!("{}}}\n", ind);
@@ -582,10 +588,19 @@ impl<'a> Gen<'a> {
                     let k = self.rng.below(8);
                     if used.contains(&k) { continue; }
                     used.push(k);
-                    *out += &format!("{}case {}:\n{}{{\n", inner, k, inner);
+                    // the arm is a block or a flat run of statements; it ends in `break` or in a `return`
+                    let flat = self.rng.chance(1, 2);
                     let in2 = format!("{}    ", inner);
+                    if flat { *out += &format!("{}case {}:\n", inner, k); } else { *out += &format!("{}case {}:\n{}{{\n", inner, k, inner); }
+                    self.locals.push(Vec::new());
                     self.stmts(depth - 1, ret, in_loop, 1, &in2, out);
-                    *out += &format!("{}break;\n{}}}\n", in2, inner);
+                    if self.rng.chance(1, 3) {
+                        match ret { Some(t) => { let e = self.expr(t, 1); *out += &format!("{}return {};\n", in2, e); } None => *out += &format!("{}return;\n", in2) }
+                    } else {
+                        *out += &format!("{}break;\n", in2);
+                    }
+                    self.locals.pop();
+                    if !flat { *out += &format!("{}}}\n", inner); }
                 }
                 if self.rng.chance(2, 3) {
                     *out += &format!("{}default:\n{}{{\n", inner, inner);
